@@ -737,6 +737,9 @@ func (self *BinaryServerProtocol) FindCallMethod(methodName string) (BinaryServe
 }
 
 func (self *BinaryServerProtocol) Init(clientId [16]byte) error {
+	if clientId == [16]byte{} {
+		return errors.New("client id error")
+	}
 	if self.inited {
 		self.slock.clientsGlock.Lock()
 		if sp, ok := self.slock.clients[self.proxys[0].clientId]; ok {
